@@ -512,6 +512,12 @@ func (e *Env) ident(id *ast.Ident, hint types.Type) Val {
 	if v, ok := e.vars[id.Name]; ok {
 		return v
 	}
+	if e.x != nil && e.fn != nil {
+		if nn, ok := e.x.p.renamesOf(e.fn)[id.Name]; ok && nn != id.Name {
+			// the variable was renamed in the code since the contract was written
+			return e.ident(&ast.Ident{NamePos: id.NamePos, Name: nn}, hint)
+		}
+	}
 	// range key of the loop the invariant belongs to: next index to be processed
 	if e.loop != nil && e.useCells {
 		if rs, ok := e.loop.stmt.(*ast.RangeStmt); ok {
@@ -921,6 +927,9 @@ func (e *Env) callExpr(ex *ast.CallExpr, hint types.Type) Val {
 				e.fail("local(name, k): bad arguments")
 			}
 			k, _ := strconv.Atoi(lit.Value)
+			if nn, ok := e.x.p.renamesOf(e.x.fn)[id2.Name]; ok {
+				id2 = &ast.Ident{NamePos: id2.NamePos, Name: nn}
+			}
 			var cands []*ssa.Alloc
 			for _, a := range e.x.allocByPos {
 				if a.Comment == id2.Name {
